@@ -22,6 +22,7 @@ var (
 	flagV       = flag.Bool("v", false, "verbose")
 	flagCross   = flag.Bool("cross", false, "require a second solver family to agree")
 	flagOnly    = flag.String("only", "", "only obligations whose name contains this")
+	flagEvDir   = flag.String("evdir", "", "write evidence and replay files under this directory instead of <verif>/evidence and <verif>/replays")
 )
 
 func main() {
